@@ -93,6 +93,15 @@ func goldensFor(gs *goldenStore, w *World, sum *Summary) ([]*Golden, string) {
 	gold := make([]*Golden, len(w.Objects))
 	for i := range w.Objects {
 		g := gs.Get(&w.Objects[i])
+		if w.Prop == "C09" && i >= 2 {
+			// noise object: executed, never judged - but an input that kills or
+			// hangs a fresh process (C02's business) would kill this worker too
+			if g.Failed != "" {
+				sum.Skipped["reference-process-failed"]++
+				return nil, "reference process failed on a noise object: " + g.Failed
+			}
+			continue
+		}
 		if g.Failed != "" {
 			sum.Skipped["reference-process-failed"]++
 			return nil, "reference process failed: " + g.Failed
@@ -129,6 +138,7 @@ func workerMain(args []string) {
 	fs.StringVar(&a.tier, "tier", "quick", "")
 	fs.Int64Var(&a.deadline, "deadline", 0, "")
 	fs.BoolVar(&a.det, "det", false, "")
+	progress := fs.Bool("progress", false, "print the index of every run before it starts (crash localisation)")
 	corpusPath := fs.String("corpus", "", "")
 	goldDir := fs.String("golden-dir", "", "")
 	goldBin := fs.String("golden-bin", "", "")
@@ -170,11 +180,16 @@ func workerMain(args []string) {
 	}
 
 	c09Var := 8
+	noiseBase = hashSeed(a.seed, 909, uint64(a.wid))
 	for i := a.from; i < a.to; i++ {
 		if a.deadline > 0 && time.Now().Unix() > a.deadline {
 			break
 		}
 		sum.NextIdx = i + 1
+		if *progress {
+			out.WriteString("AT " + strconv.Itoa(i) + "\n")
+			out.Flush()
+		}
 		var w *World
 		switch a.prop {
 		case "C09":
